@@ -19,6 +19,24 @@ pub fn observe(line: &str) -> String {
             Some(inp) => guarded(|| if Parser::decode(&inp).is_ok() { "ok".into() } else { "err".into() }),
             None => "bad-request".into(),
         },
+        ["bigstr", n] => match n.parse::<usize>() {
+            // `l<n>:<n zero bytes>i7ee` built here: verdict, length of the decoded string, continuation offset of the list
+            Ok(n) => guarded(|| {
+                let mut inp: Vec<u8> = Vec::with_capacity(n + 40);
+                inp.extend_from_slice(format!("l{}:", n).as_bytes());
+                inp.resize(inp.len() + n, 0);
+                inp.extend_from_slice(b"i7ee");
+                match Parser::decode(&inp) {
+                    Ok(BencodeToken::List(list)) => match list.value.first() {
+                        Some(BencodeToken::String(text)) => format!("ok {} {}", text.value.len(), list.continuation_position),
+                        _ => "ok ? ?".to_string(),
+                    },
+                    Ok(_) => "ok ? ?".to_string(),
+                    Err(_) => "err".to_string(),
+                }
+            }),
+            Err(_) => "bad-request".into(),
+        },
         ["par", h] => match unhex(h) {
             Some(inp) => guarded(|| par(&inp)),
             None => "bad-request".into(),
